@@ -11,6 +11,7 @@ def run(res, tier, replay=None):
     c11.run_d(prog, res)
     c11.run_e(prog, res)
     c11.run_f(prog, res)
+    c11.run_g(prog, res)
     res.assumptions = common.ASSUMPTIONS
     res.explanation = (
         "C11, atomicity by construction: pre-emption happens only in the VM loop (fuel countdown), so the lock, unlock, signal, "
@@ -19,6 +20,6 @@ def run(res, tier, replay=None):
         "unresolved indirect call once the collector's finalizer edge is cut; (b) the cut is justified on every run: no installed "
         "finalizer reaches the VM or the allocator except through sexp_finalize_port -> sexp_buffered_flush, where the store "
         "openp=0 dominates the flush call and every VM-reaching call inside sexp_buffered_flush is dominated by an openp test. "
-        "(c) the Scheme code of (srfi 18) never uses the record setters of the lock/owner/waiter slots (discovered from types.scm), so only the atomic primitives write them. (d) every primitive that queues the current thread as paused stores its event and waitp fields on every path first (wake-ups are matched on event). (e) every store to the run queue's FRONT global is accompanied by a store to its BACK global (reachable from it, or reaching it, with no other FRONT store in between): the two ends of the queue are maintained together. (f) a function that defines the wake-up deadline of a thread it was handed defines it on every path (no deadline of an earlier timed wait survives into an untimed one). Not decided: no-lost-wakeup, fairness, schedule independence (behaviour of the scheduler and of interface.scm).")
+        "(c) the Scheme code of (srfi 18) never uses the record setters of the lock/owner/waiter slots (discovered from types.scm), so only the atomic primitives write them. (d) every primitive that queues the current thread as paused stores its event and waitp fields on every path first (wake-ups are matched on event). (e) every store to the run queue's FRONT global is accompanied by a store to its BACK global (reachable from it, or reaching it, with no other FRONT store in between): the two ends of the queue are maintained together. (f) a function that defines the wake-up deadline of a thread it was handed defines it on every path (no deadline of an earlier timed wait survives into an untimed one). (g) every store that ends a thread's wait (waitp = 0) defines the thread's timeoutp flag in the same basic block, because the retry loops of interface.scm ask thread-timeout? right after the resume (one reasoned exemption: the signal runner, which only ever sleeps in thread-sleep!). Not decided: no-lost-wakeup, fairness, schedule independence (behaviour of the scheduler and of interface.scm).")
     if tier == "thorough":
-        common.thorough_mutations(res, "C11", {"C11": lambda p, r: (c11.run(p, r), c11.run_c(p, r, root=p.root), c11.run_d(p, r, floor=0), c11.run_e(p, r, floor=0), c11.run_f(p, r, floor=0))})
+        common.thorough_mutations(res, "C11", {"C11": lambda p, r: (c11.run(p, r), c11.run_c(p, r, root=p.root), c11.run_d(p, r, floor=0), c11.run_e(p, r, floor=0), c11.run_f(p, r, floor=0), c11.run_g(p, r, floor=0))})
